@@ -160,6 +160,38 @@ def gen_tables_call(rng, which=None, measure=None):
     return call
 
 
+def empty_tables_call(rng, which=None):
+    """filter_tables on tables salted with values that tokenize to nothing on both sides; sometimes
+    EVERY left value is such a value (so that nothing at all is indexed)."""
+    import pandas as pd
+    import py_stringsimjoin as ssj
+    call = gen_tables_call(rng, which or rng.choice(['size', 'prefix', 'position', 'suffix', 'overlap']),
+                           rng.choice(['JACCARD', 'COSINE', 'DICE', 'JACCARD', 'OVERLAP']))
+    if call['measure'] == 'EDIT_DISTANCE':
+        return call
+    if call['which'] != 'overlap':
+        # allow_empty is a constructor argument: rebuild the filter with it mostly on
+        call['allow_empty'] = rng.random() < 0.8
+        cls = {'size': ssj.SizeFilter, 'prefix': ssj.PrefixFilter, 'position': ssj.PositionFilter,
+               'suffix': ssj.SuffixFilter}[call['which']]
+        call['filt'] = cls(call['tok'], call['measure'], call['t'], call['allow_empty'], call['allow_missing'])
+    kind = call['kind']
+    blanks = {'ws': ['', ' ', '   '], 'delim': ['', ',', ',,'], 'alnum': ['', ' ,; ', '--'], 'qgram2np': ['', 'x', 'y'],
+              'qgram3': [''], 'qgram2': ['']}.get(kind, [''])
+    names = call['names']
+    all_left = rng.random() < 0.4
+    for df, col, side in ((call['L'], names[1], 'l'), (call['R'], names[3], 'r')):
+        if len(df) == 0:
+            continue
+        vals = df[col].tolist()
+        ks = range(len(vals)) if (all_left and side == 'l') else rng.sample(range(len(vals)), rng.randint(1, max(1, len(vals) // 2)))
+        for k in ks:
+            if not T.is_missing(vals[k]):
+                vals[k] = rng.choice(blanks)
+        df[col] = pd.Series(vals, index=df.index, dtype=object)
+    return call
+
+
 def run_tables_call(call):
     import joblib
     lkey, ljoin, rkey, rjoin = call['names']
@@ -209,12 +241,15 @@ def describe_tables(call, df=None):
     return d
 
 
-def run_tables(seed, n, which=None):
+def run_tables(seed, n, which=None, empty_frac=0.1):
     rng = random.Random(seed + 7)
     groups, calls, dfs = [], [], []
     dist = {'filter': {}, 'measure': {}, 'njobs': {}, 'exceptions': {}}
     for i in range(n):
-        call = gen_tables_call(rng, rng.choice(which) if which else None)
+        if rng.random() < empty_frac:
+            call = empty_tables_call(rng, rng.choice(which) if which else None)
+        else:
+            call = gen_tables_call(rng, rng.choice(which) if which else None)
         df = run_tables_call(call)
         calls.append(call)
         dfs.append(df)
